@@ -110,17 +110,17 @@ def execOp (sh : Shapes) (s : Shared) (t : Task) (op : AOp) (arg : Nat) : Shared
       else (s, { t with ops := tagOps sh.emit 0 }, false)                 -- pair: handler emits
     | none =>
       if sh.respPolls && sideOf t == .resp then
-        -- kafka response: poll again until maxTry
-        let tries := t.tries + 1
-        if tries ≥ sh.maxTry then (s, { t with ops := [], tries, gaveUp := true, remaining := 0 }, false)
-        else (s, { t with tries }, false)
+        -- kafka response: one more failed look-up; the loop head decides whether to try again
+        (s, { t with tries := t.tries + 1 }, false)
       else (s, t, false)
   | .loopEnd =>
     if sh.respPolls && sideOf t == .resp && !t.ops.isEmpty then (s, t, false)
     else if sh.respPolls && sideOf t == .resp then
-      -- back to the top of the poll loop
-      let body := (tagOps sh.regResp 0).dropWhile (fun o => o.1 != .loopBegin)
-      (s, { t with ops := body }, false)
+      -- back to the top of the poll loop: `try++; if try > maxTry { return nil }`
+      if t.tries ≥ sh.maxTry then (s, { t with ops := [], gaveUp := true, remaining := 0 }, false)
+      else
+        let body := (tagOps sh.regResp 0).dropWhile (fun o => o.1 != .loopBegin)
+        (s, { t with ops := body }, false)
     else (s, t, false)
   | .mapStore => ({ s with map := mapInsert s.map t.key (sideOf t) }, t, false)
   | .incMatched => ({ s with matched := s.matched + 1 }, t, false)
